@@ -239,6 +239,8 @@ class Fn:
                 return "Point"
             if e.func.value.attr == "_storage" and e.func.attr == "_deserialize_timestamp":
                 return "DateTime"
+            if e.func.value.attr == "_storage" and e.func.attr == "read":
+                return ("List", "Point")
             if e.func.value.attr == "_index" and e.func.attr == "search":
                 return "IndexResult"
         if isinstance(e, ast.Attribute) and self.ty(e.value) == "IndexResult" and e.attr in ("_items", "items"):
@@ -593,6 +595,8 @@ class Fn:
                 return f"(Storage.{f.attr} self._storage {self.atom(args[0])})"
             if _is_self_attr(recv) and recv.attr == "_index" and f.attr in INDEX_READERS:
                 return f"(← IndexImpl.{f.attr} self._index {' '.join(self.atom(a) for a in args)})".replace(" )", ")")
+            if _is_self_attr(recv) and recv.attr == "_storage" and f.attr == "read" and not args:
+                return "(Storage.read self._storage)"
             if _is_self_attr(recv) and recv.attr == "_storage" and f.attr == "_deserialize_timestamp" and len(args) == 1:
                 return f"(Storage._deserialize_timestamp self._storage {self.atom(args[0])})"
             if _is_self_attr(recv) and recv.attr == "_index" and f.attr == "search" and len(args) == 1:
@@ -607,7 +611,7 @@ class Fn:
         if l.args.defaults or l.args.vararg or l.args.kwarg or len(l.args.args) != 1:
             raise Unsupported("lambda")
         x = l.args.args[0].arg
-        if ast.unparse(l.body) == f"({x}.time is None, {x}.time)":
+        if ast.unparse(l.body) in (f"({x}.time is None, {x}.time)", f"({x} is None, {x}.time)"):
             # the sort key "points without a time last, then by time": a point that storage returns has a time
             return f"(fun {x} => (timeOf {x}).us)"
         body = self.ex(l.body)
@@ -1143,7 +1147,7 @@ INDEX_METHODS = [
 # the methods of `TinyFlux` that are translated (the list level: storage is the decoded view of its rows)
 DATABASE_METHODS = ["_reset_database", "_remove_helper", "count", "contains",
                     "__len__", "get_field_keys", "get_field_values", "get_measurements", "get_tag_keys", "get_timestamps",
-                    "search", "get", "reindex", "remove_all"]
+                    "search", "get", "reindex", "remove_all", "all"]
 INDEX_READERS = ("get_field_keys", "get_field_values", "get_measurements", "get_tag_keys", "get_tag_values", "get_timestamps")
 
 
